@@ -195,12 +195,13 @@ Qed.
 
 Section EntryThrow.
 Variable cf : cfg.
+Variable contained : bool.
 Variable mc : machine.
 Variable children : list (option child_ops).
 
 Theorem back_entry_throw_clears_marker fuel s ev k co rn g rn' g' :
   entry_throw_resets cf = true -> child children s = Some co ->
-  exec_entry cf mc children fuel s ev k rn g = (None, rn', g') ->
+  exec_entry cf contained mc children fuel s ev k rn g = (None, rn', g') ->
   forall kn, nth s (kids rn') None = Some kn -> processing kn = false.
 Proof.
   intros Hr Hc H. unfold exec_entry in H. rewrite Hc, Hr in H.
@@ -208,7 +209,7 @@ Proof.
   eapply lift_child_clear_marker; eauto.
 Qed.
 
-Theorem mp11_entry_throw_clears_marker contained fwd fuel s ev k co rn g rn' g' :
+Theorem mp11_entry_throw_clears_marker fwd fuel s ev k co rn g rn' g' :
   mp11_entry_throw_resets = true -> mchild children s = Some co ->
   mexec_entry_gen cf contained mc children fwd fuel s ev k rn g = (None, rn', g') ->
   forall kn, nth s (kids rn') None = Some kn -> processing kn = false.
